@@ -55,6 +55,31 @@ class RecCheck(checks.AbstractCheck):
         LOG.append(["cleanup", self.description])
 
 
+_LATE = {}
+
+
+def late_classes(name):
+    """direct subclasses of the two abstract bases created only now (after other CIDs have been read in this
+    process); they resolve by class name like any other: '<name>FieldFormat' / '<name>Check'"""
+    if name not in _LATE:
+        def ff_init(self, field_name, is_allowed_to_be_empty, length, rule, data_format):
+            fields.AbstractFieldFormat.__init__(self, field_name, is_allowed_to_be_empty, length, rule, data_format, empty_value="")
+            self.accepted = rule.split("|") if rule else []
+
+        def ck_init(self, description, rule, available_field_names, location=None):
+            checks.AbstractCheck.__init__(self, description, rule, available_field_names, location)
+            parts = rule.split()
+            self.kind = parts[0]
+            self.veto_field = parts[1] if self.kind == "veto" else None
+            self.trigger = parts[2] if self.kind == "veto" else None
+
+        ff = type(name + "FieldFormat", (fields.AbstractFieldFormat,), {"__init__": ff_init, "validated_value": RecFieldFormat.validated_value})
+        ck = type(name + "Check", (checks.AbstractCheck,), {"__init__": ck_init, "reset": RecCheck.reset, "check_row": RecCheck.check_row,
+                                                            "check_at_end": RecCheck.check_at_end, "cleanup": RecCheck.cleanup})
+        _LATE[name] = (ff, ck)
+    return _LATE[name]
+
+
 # ------------------------------------------------------------------ spec -> implementation CID
 
 
@@ -79,6 +104,8 @@ def cid_rows(spec):
     props = []
     if spec.get("header"):
         props.append(["D", "Header", str(spec["header"])])
+    if spec.get("encoding"):
+        rows.append(["D", "Encoding", spec["encoding"]])
     if spec.get("allowed") is not None:
         props.append(["D", "Allowed characters", items_text(spec["allowed"])])
     if spec["format"] == "fixed" and spec.get("line_delimiter"):
@@ -96,7 +123,8 @@ def cid_rows(spec):
             rule = ", ".join(f["choices"])
         elif f["type"] == "Rec":
             rule = "|".join(f["choices"])
-        rows.append(["F", f["name"], good_example(spec, f) if spec.get("examples") else "", "X" if f["empty"] else "", items_text(f["length"]), f["type"], rule])
+        tname = spec.get("rec_name", "Rec") if f["type"] == "Rec" else f["type"]
+        rows.append(["F", f["name"], good_example(spec, f) if spec.get("examples") else "", "X" if f["empty"] else "", items_text(f["length"]), tname, rule])
     rows += late
     names = [f["name"] for f in spec["fields"]]
     for i, c in enumerate(spec.get("checks", [])):
@@ -106,9 +134,9 @@ def cid_rows(spec):
         elif c["kind"] == "distinct":
             rows.append(["C", desc, "DistinctCount", "%s %s %d" % (names[c["col"]], c["op"], c["n"])])
         elif c["kind"] == "veto":
-            rows.append(["C", desc, "Rec", "veto %s %s" % (names[c["col"]], c["trigger"])])
+            rows.append(["C", desc, spec.get("rec_name", "Rec"), "veto %s %s" % (names[c["col"]], c["trigger"])])
         else:
-            rows.append(["C", desc, "Rec", c["kind"]])
+            rows.append(["C", desc, spec.get("rec_name", "Rec"), c["kind"]])
     return rows
 
 
@@ -126,6 +154,8 @@ def good_example(spec, f):
 
 
 def build_cid(spec):
+    if spec.get("rec_name"):
+        late_classes(spec["rec_name"])
     cid = interface.Cid()
     cid.read("<spec>", cid_rows(spec))
     return cid
@@ -179,6 +209,9 @@ def encode(spec, table, broken_tail=False):
     return text
 
 
+LAST_RAW_LEAK = [None]
+
+
 def raw_rows(cid, spec, text):
     """(rows the implementation's own row reader delivers, whether it ends in DataFormatError)"""
     stream = io.StringIO(text, newline="")
@@ -188,11 +221,15 @@ def raw_rows(cid, spec, text):
     else:
         gen = rowio.delimited_rows(stream, df)
     rows = []
+    LAST_RAW_LEAK[0] = None
     try:
         for r in gen:
             rows.append(list(r))
         return rows, False
     except errors.DataFormatError:
+        return rows, True
+    except Exception as e:  # noqa - a row reader must fail with DataFormatError only; the case's oracle reports it
+        LAST_RAW_LEAK[0] = "%s: %s" % (type(e).__name__, str(e)[:120])
         return rows, True
 
 
